@@ -1431,6 +1431,14 @@ def rule_r20(prog, res):
                         'nothing' % recv)
 
 
+def rule_r21(prog, res):
+    from . import c08
+    from ..report import Result
+    res.share('R21', 'the XSD type published for a binary member is the one '
+              'its wire encoding is a literal of (C08-R12)', 'C08',
+              c08.rule_r12, prog, Result)
+
+
 def run(prog, res, tier):
     res.run_rule(rule_r1, prog, res, tier)
     res.run_rule(rule_r2, prog, res)
@@ -1452,6 +1460,7 @@ def run(prog, res, tier):
     res.run_rule(rule_r18, prog, res)
     res.run_rule(rule_r19, prog, res)
     res.run_rule(rule_r20, prog, res)
+    res.run_rule(rule_r21, prog, res)
 
 
 _S = 'spyne/interface/xml_schema/_base.py'
